@@ -7,7 +7,7 @@
                 so every unit index is 0.  (The model groups the edges into one target variable; the key contains the
                 target, so restricting first and grouping afterwards is the same dict restricted to that target.)
    2 merge      ir/circuit.py:_collect_from_edges — all grouped edges that reach one target variable are merged in
-                a dict keyed by the SOURCE NODE only: `source_var` is a string, so the FIRST one stays, while weight,
+                a dict keyed by the SOURCE NODE only (with `fixed_D3 = true`: by source node and source variable): `source_var` is a string, so the FIRST one stays, while weight,
                 source_idx and target_idx are extended (defect D3: a second variable of the same node is dropped and
                 its weight is applied to the first variable).  Order of the source nodes: first appearance among the
                 edges into this target variable (the code: MultiDiGraph predecessor order of the target node; this only
@@ -56,14 +56,18 @@ Definition group_edges (es : list edge) : list gedge :=
   map mk_gedge (group_by key2_eqb (fun e => (esrc e, etgt e)) es).
 
 (* ---------------------------------------------------------------------------------------------- 2 merge *)
+(* THE MODEL SWITCH for defect D3: false = the code as it is (dict keyed by the source NODE only); true = the repair
+   /verif/fixes/proposed_fix_C01_D3.diff (keyed by source node AND source variable).  c01.py reads this line too. *)
+Definition fixed_D3 : bool := false.
+
 Record merged := { msrc : vid; mw : list Qc; msidx : list nat; mtidx : list nat }.
-Definition first_src (snode : string) (l : list gedge) : vid :=
-  match l with g :: _ => gsrc g | [] => (snode, "", "") end.
-Definition mk_merged (p : string * list gedge) : merged :=
+Definition merge_key (g : gedge) : vid := if fixed_D3 then gsrc g else (vnode (gsrc g), "", "").
+Definition first_src (k : vid) (l : list gedge) : vid :=
+  match l with g :: _ => gsrc g | [] => k end.
+Definition mk_merged (p : vid * list gedge) : merged :=
   {| msrc := first_src (fst p) (snd p); mw := flat_map gw (snd p);
      msidx := flat_map gsidx (snd p); mtidx := flat_map gtidx (snd p) |}.
-Definition merge_groups (ges : list gedge) : list (string * list gedge) :=
-  group_by String.eqb (fun g => vnode (gsrc g)) ges.
+Definition merge_groups (ges : list gedge) : list (vid * list gedge) := group_by vid_eqb merge_key ges.
 Definition collect_from_edges (ges : list gedge) : list merged := map mk_merged (merge_groups ges).
 
 (* ---------------------------------------------------------------------------------------------- 3 one source node *)
@@ -143,10 +147,60 @@ Fixpoint layout_from {A} (idx : nat) (vars : list (A * nat)) : list (A * (nat * 
   end.
 Definition layout {A} (vars : list (A * nat)) := layout_from O vars.
 
+(* ---------------------------------------------------------------------------------------------- 7 evaluation order *)
+(* backend/computegraph.py:_sort_var_updates (non-DE updates): repeated passes over the remaining updates in dict order;
+   an update is emitted when none of the names its right-hand side reads is the left-hand side of ANOTHER update that is
+   still remaining (node_names shrinks inside the pass as updates are emitted); a pass that emits nothing stops the loop
+   and the mutually dependent rest is appended as it is (flag false).  The next pass starts from the names of the
+   remaining updates (with pairwise distinct left-hand sides that is what node_names holds).  Generic in the payload. *)
+Section SortUpdates.
+  Variable A : Type.
+  Variable lhs_of : A -> string.
+  Variable deps_of : A -> list string.
+
+  Definition memb (x : string) (l : list string) : bool := existsb (String.eqb x) l.
+  Definition dependent (q : A) (names : list string) : bool :=
+    existsb (fun i => memb i names && negb (String.eqb i (lhs_of q))) (deps_of q).
+  Fixpoint remove1 (x : string) (l : list string) : list string :=
+    match l with [] => [] | y :: r => if String.eqb x y then r else y :: remove1 x r end.
+  Fixpoint sort_pass (todo : list A) (names : list string) : list A * list A * list string :=
+    match todo with
+    | [] => ([], [], names)
+    | q :: r =>
+        if dependent q names
+        then let '(e, s, nm) := sort_pass r names in (e, q :: s, nm)
+        else let '(e, s, nm) := sort_pass r (remove1 (lhs_of q) names) in (q :: e, s, nm)
+    end.
+  Fixpoint sort_updates (fuel : nat) (rem : list A) : list A * bool :=
+    match rem with
+    | [] => ([], true)
+    | _ =>
+        match fuel with
+        | O => (rem, false)
+        | S f =>
+            let '(e, s, _) := sort_pass rem (map lhs_of rem) in
+            if (List.length s =? List.length rem)%nat then (rem, false)
+            else let '(out, ok) := sort_updates f s in (app e out, ok)
+        end
+    end.
+End SortUpdates.
+
+(* the flat assignment program that the generated function executes for the algebraic updates *)
+Definition assign := (string * expr)%type.
+Definition set_env (env : string -> option Qc) (x : string) (v : option Qc) : string -> option Qc :=
+  fun y => if String.eqb y x then v else env y.
+Fixpoint run_assigns (prog : list assign) (env : string -> option Qc) : string -> option Qc :=
+  match prog with
+  | [] => env
+  | (x, e) :: r => run_assigns r (set_env env x (eval env e))
+  end.
+Definition sort_assigns (prog : list assign) : list assign * bool :=
+  sort_updates assign fst (fun p => fv (snd p)) (List.length prog) prog.
+
 (* ---------------------------------------------------------------------------------------------- guards *)
 (* D3: within every merge group all grouped edges carry the same source variable *)
 Definition d3_ok (n : net) (v : vid) : bool :=
-  forallb (fun p : string * list gedge => forallb (fun g => vid_eqb (gsrc g) (first_src (fst p) (snd p))) (snd p))
+  forallb (fun p : vid * list gedge => forallb (fun g => vid_eqb (gsrc g) (first_src (fst p) (snd p))) (snd p))
           (merge_groups (group_edges (in_edges n v))).
 Definition guard_d3 (n : net) : bool := forallb (fun e => d3_ok n (etgt e)) (nedges n).
 
